@@ -12,7 +12,11 @@
 (* the column, computed with the path-dependent line number the machine    *)
 (* derives from the back-pointers reported so far, and the reported cost   *)
 (* is the machine's.  This checks, call by call, what the code relies on   *)
-(* smawk for.                                                              *)
+(* smawk for.  Outside C03's precondition (a penalty width larger than the *)
+(* following fragment, or more than two line widths) the matrix need not   *)
+(* be totally monotone and smawk may report a non-minimal row; the trace   *)
+(* then follows the code with the machine's named deviation DPFollow and   *)
+(* counts these columns (sixth number of STEPSTATS).                       *)
 (***************************************************************************)
 EXTENDS MC_Optimal, IOUtils
 
@@ -55,9 +59,13 @@ T_Col ==
   /\ IF ~(pc = "dp" /\ j <= n) THEN Reject("no column left")
      ELSE IF e.j # j THEN Reject("column index differs")
      ELSE IF ~(e.arg \in 0..(j - 1)) THEN Reject("argmin out of range")
-     ELSE IF ColumnCost(e.arg) # Min({ColumnCost(i) : i \in 0..(j - 1)}) THEN Reject("the reported row is not a minimum of this column")
-     ELSE /\ DPStep /\ bp'[j + 1] = e.arg
+     ELSE IF ColumnCost(e.arg) = Min({ColumnCost(i) : i \in 0..(j - 1)})
+     THEN /\ DPStep /\ bp'[j + 1] = e.arg
           /\ IF e.cost = best'[j + 1] THEN Count ELSE Mismatch("minimum cost of this column differs")
+     ELSE IF PenaltyOk(fs) /\ Len(lws) <= 2 THEN Reject("the reported row is not a minimum of this column")
+     \* outside C03's precondition the matrix need not be totally monotone: follow the code (named deviation DPFollow)
+     ELSE /\ DPFollow(e.arg) /\ TLCSet(6, TLCGet(6) + 1)
+          /\ IF e.cost = best'[j + 1] THEN Count ELSE Mismatch("cost of the reported row differs")
 \* one iteration of the back-tracking loop
 T_Back ==
   /\ IsEv("o.back") /\ pc # "rejected" /\ ~SilentEnabled /\ Bump
@@ -71,10 +79,10 @@ T_End ==
      ELSE /\ pc' = "idle" /\ UNCHANGED <<fs, lws, pen, j, best, bp, ln, pos, lines>>
           /\ IF lines = e.res THEN Count /\ TLCSet(4, TLCGet(4) + 1) ELSE Mismatch("returned lines differ from the machine's")
 
-TraceInit == Init /\ l = 2 /\ TLCSet(1, 0) /\ TLCSet(2, 0) /\ TLCSet(3, 0) /\ TLCSet(4, 0) /\ TLCSet(5, 2)
+TraceInit == Init /\ l = 2 /\ TLCSet(1, 0) /\ TLCSet(2, 0) /\ TLCSet(3, 0) /\ TLCSet(4, 0) /\ TLCSet(5, 2) /\ TLCSet(6, 0)
 TraceNext == ((T_Begin \/ Skip \/ T_Col \/ T_Back \/ T_End) /\ l' = l + 1) \/ Silent
 TraceSpec == TraceInit /\ [][TraceNext]_tvars
 Accepted ==
-  /\ PrintT(<<"STEPSTATS", TLCGet(1), TLCGet(2), TLCGet(3), TLCGet(4), Len(Rec) - 1>>)
+  /\ PrintT(<<"STEPSTATS", TLCGet(1), TLCGet(2), TLCGet(3), TLCGet(4), Len(Rec) - 1, TLCGet(6)>>)
   /\ TLCGet(5) = Len(Rec) + 1
 =============================================================================
